@@ -77,11 +77,17 @@ def run(chk):
             side, text = m
             cid = "cid" in c["variant"]
             sig = {"monitor": text.split(" (")[0].split(" emitted")[0], "cid": cid, "side": side}
+            site = "conn.go processHandshakePacket"
+            if c["kind"] == "session-export-close":
+                # the exporting connection was shut down with Close() before the import
+                sig = {"monitor": "record number reused across export/import", "exporter": "closed-with-close_notify"}
+                site = "state.go generateState / generateInternalState (the exported sequence number is a snapshot; the exporting Conn keeps emitting from it)"
+                text = "%s: the exporting connection's close_notify and the imported connection's first record carry the same (epoch, sequence number) under the same keys" % text
             key = str(sig)
             if key in reported:
                 continue
             reported.add(key)
-            chk.finding("conn.go processHandshakePacket", sig, "%s [variant %s mtu %d drop %d dup %d]" % (
+            chk.finding(site, sig, "%s [variant %s mtu %d drop %d dup %d]" % (
                 text, c["variant"], c["mtu"], c["drop"], c["dup"]),
                 {"how": "handshake of `variant` with MTU `mtu` on the scripted network dropping datagram #drop and "
                         "duplicating #dup; `client`/`server` are the (epoch,seq,type) of every record each side emitted",
